@@ -267,6 +267,11 @@ func (e *c34Env) boundaryPayloads() []c34Payload {
 		// planning refuses this list; a package that gets built from it carries a member name twice
 		{"same-path-relative-and-absolute", []wire.Content{c34File(j("bin/tool"), "usr/share/demo/data.txt"), c34File(j("etc/app.conf"), "/usr/share/demo/data.txt"), c34File(j("bin/tool"), "/usr/bin/tool")}},
 		{"same-path-relative-file-and-directory", []wire.Content{c34File(j("bin/tool"), "usr/share/demo/thing"), {Dst: "/usr/share/demo/thing", Type: "dir"}, c34File(j("bin/tool"), "/usr/bin/tool")}},
+		// an entry two levels beneath a path that is declared as a symbolic link (planning refuses the list: nothing lies
+		// beneath a non-directory); a name with a backslash and dots that is one file name here
+		{"same-path-beneath-a-symlink", []wire.Content{{Src: "/srv/app-1.0", Dst: "/opt/app", Type: "symlink"}, c34File(j("bin/tool"), "/opt/app/bin/tool")}},
+		{"same-path-beneath-a-file", []wire.Content{c34File(j("etc/app.conf"), "/opt/conf"), c34File(j("bin/tool"), "/opt/conf/a/b/tool")}},
+		{"backslash-and-dots-in-a-name", []wire.Content{c34File(j("bin/tool"), "/opt/demo/x\\..\\tool"), c34File(j("etc/app.conf"), "/opt/demo/tool"), {Src: "..\\x", Dst: "/opt/demo/l\\..\\nk", Type: "symlink"}}},
 		{"setuid-owner-mtime", []wire.Content{
 			{Src: j("bin/suid"), Dst: "/usr/bin/suid", Info: &wire.FileInfo{Mode: 0o4755, Owner: "root", Group: "wheel", MTime: 1500000001}},
 			{Src: j("bin/tool"), Dst: "/usr/bin/sgid", Info: &wire.FileInfo{Mode: 0o2755, Owner: "daemon", Group: "app", MTime: wire.ZeroTime}},
